@@ -541,6 +541,17 @@ class Leb128Field(VarField):
         else:
             return "%dc"%self._sz
 
+    def size(self, psize=0):
+        if self._sz is None:
+            return float("Infinity")
+        return self._sz
+
+    def copy(self,obj=None):
+        newf = super().copy(obj)
+        newf.sign = self.sign
+        newf.N = self.N
+        return newf
+
     def _terminate(self,b,f):
         return b&0x80==0
 
